@@ -176,6 +176,10 @@ func (c Col) CoqCol() string {
 	switch {
 	case c.K == KInt64Aff:
 		return "(col_num 64 merge_affine)"
+	case c.K == KInt:
+		return "(col_int merge_add)"
+	case c.K == KUint:
+		return "(col_uint merge_add)"
 	case c.K.Numeric():
 		return fmt.Sprintf("(col_num %d merge_add)", c.K.Width()*8)
 	case c.K == KStr || c.K == KRec:
@@ -222,6 +226,59 @@ func (c Col) Set(r column.Row, v Val) {
 	case KRec, KRecCat:
 		r.SetRecord(c.Name, &rec{b: v.B})
 	}
+}
+
+// AnyValue is the Go value a user would hand to SetAny / SetMany for this column.  For int and
+// uint columns the value may be narrower than the column (v.W of 2 or 4 bytes): PutAny writes a
+// 2- or 4-byte entry that Reader.Int / Reader.Uint widen when the column applies it.
+func (c Col) AnyValue(v Val, tiny bool) any {
+	switch c.K {
+	case KInt:
+		switch v.W {
+		case 2:
+			if x := int16(v.N); tiny && x >= -128 && x <= 127 {
+				return int8(x) // travels as 2 bytes
+			}
+			return int16(v.N)
+		case 4:
+			return int32(v.N)
+		}
+		return int(v.N)
+	case KUint:
+		switch v.W {
+		case 2:
+			if tiny && v.N <= 255 {
+				return uint8(v.N)
+			}
+			return uint16(v.N)
+		case 4:
+			return uint32(v.N)
+		}
+		return uint(v.N)
+	case KInt16:
+		return int16(v.N)
+	case KInt32:
+		return int32(v.N)
+	case KInt64, KInt64Aff:
+		return int64(v.N)
+	case KUint16:
+		return uint16(v.N)
+	case KUint32:
+		return uint32(v.N)
+	case KUint64:
+		return v.N
+	case KF32:
+		return math.Float32frombits(uint32(v.N))
+	case KF64:
+		return math.Float64frombits(v.N)
+	case KStr, KStrCat, KStrMin, KEnum:
+		return string(v.B)
+	case KBool:
+		return v.N != 0
+	case KRec, KRecCat:
+		return &rec{b: v.B}
+	}
+	return nil
 }
 
 func (c Col) Merge(r column.Row, v Val) {
